@@ -236,6 +236,7 @@ package rapid
 //@ event SpawnGraceful = call rapid.(*shutdownContext).shutdownAgents$1
 //@ event SpawnKill = call rapid.(*shutdownContext).shutdownAgents$2
 //@ event ExternalAgentsListed = ret core.(RegistrationService).GetExternalAgents
+//@ event OwnWaitContext = call context.WithCancel
 
 // runtime: SIGTERM first, SIGKILL only from the deadline branch, both addressed to the process that was looked up
 //@ func (*shutdownContext).shutdownRuntime
@@ -248,6 +249,7 @@ package rapid
 //@ func (*shutdownContext).shutdownAgents$1
 //@   requires execCtx != nil && agent != nil
 //@   ensures [one-event-then-maybe-kill] delta(ReleaseExt) == 1 && lastarg(ReleaseExt, 0) == agent && delta(KillAny) <= 1 && (delta(KillAny) == 1 ==> first(ReleaseExt) < first(KillAny) && lastarg(KillAny, 2).Name == name && lastarg(KillAny, 2).Domain == RuntimeDomain) && delta(Terminate) == 0
+//@   ensures [waits-on-a-context-of-its-own] delta(OwnWaitContext) == 1 && first(ReleaseExt) < first(OwnWaitContext)
 
 // an extension not subscribed to SHUTDOWN: killed, no event
 //@ func (*shutdownContext).shutdownAgents$2
